@@ -46,6 +46,7 @@ def c02(ctx):
     ctx.tlc_mc("SemMC", "SemMC_prog_%s.cfg" % ctx.tier, label="C02_Sem on two-statement programs (design level)")
     n, b = scale(ctx, (2500, 4), (6000, 16))
     sem.trace_batches(ctx, "mixed", "MachineTrace_C02.cfg", n, b)
+    sem.scale_lift(ctx, 500 if ctx.tier == "quick" else 5000, prop="C02")   # allotments of amounts around 2^63 / 2^64 and up to 10^30: every posting stays a real transfer
     sem.trace_batches(ctx, "pair", "MachineTrace_C02.cfg", n, b)
     sem.repo_corpus(ctx, "MachineTrace_C02.cfg")
     return ctx.finish("model_checking", sem.NONTRIV_RULE)
